@@ -98,7 +98,7 @@ class MapToMolecule(Processor):
         self.node_to_block = {}
         self.node_to_fragment = {}
         self.fragments = []
-        self.multiblock_correspondence = []
+        self.multiblock_correspondence = {}
         self.added_fragment_nodes = []
         self.force_field = force_field
 
@@ -157,7 +157,9 @@ class MapToMolecule(Processor):
         # be an integer multiple of the block
         n_fragments = 0
         for fragment in nx.connected_components(restart_graph):
-            frag_nodes = list(fragment)
+            # the order of a set depends on the node keys; consecutive residues
+            # have to end up in the same fragment, so order the nodes by resid
+            frag_nodes = sorted(fragment, key=lambda node: meta_molecule.nodes[node]["resid"])
             block = self.force_field.blocks[restart_attr[frag_nodes[0]]]
             block_res = make_residue_graph(block, attrs=('resid', 'resname'))
             len_block = len(block_res)
@@ -220,7 +222,7 @@ class MapToMolecule(Processor):
             # extract the nodes of this paticular residue and store a
             # dummy correspndance
             correspondence = {node:node for node in new_mol.nodes}
-            self.multiblock_correspondence.append({node:node for node in new_mol.nodes})
+            self.multiblock_correspondence[self.node_to_fragment[start_node]] = {node:node for node in new_mol.nodes}
             residue = _correspondence_to_residue(meta_molecule,
                                                  new_mol,
                                                  correspondence,
@@ -273,7 +275,7 @@ class MapToMolecule(Processor):
             if "from_itp" in meta_molecule.nodes[node] and node not in self.added_fragment_nodes:
                 fragment_nodes = list(self.fragments[self.node_to_fragment[node]])
                 self.added_fragment_nodes += fragment_nodes
-                self.multiblock_correspondence.append(correspondence)
+                self.multiblock_correspondence[self.node_to_fragment[node]] = correspondence
 
         return new_mol
 
